@@ -9,7 +9,10 @@
 
    The model follows the code as repaired by the fix: commits d5d0029 (errorChan never closed),
    da46feb (trigger listener spawns the shutdown), ddc3dd2/8eb6141 (gate), 977a5ea (SIGHUP),
-   aa7dec7 (monitor first value), 00876a0 (launch gate; only started runnables are stopped). *)
+   aa7dec7 (monitor first value), 00876a0 (launch gate; only started runnables are stopped),
+   4585550 (finals), and the repairs for C03 (a cancelled readiness wait still returns a queued
+   failure: LGateCtx) and C06 (startRunnable broadcasts the map after storing the initial state:
+   LRunCall). *)
 From Coq Require Import List NArith Bool Arith.
 Import ListNotations.
 
@@ -89,7 +92,9 @@ Inductive event :=
 
 (* ------------------------------------------------------------------ state *)
 
-Inductive rn_pc := RnNot | RnLaunched | RnRunning | RnSending (e : errid) | RnDone.
+(* RnStored: startRunnable has stored the initial state of a Stateable runnable and broadcast the map;
+   the runnable's Run has not been entered yet *)
+Inductive rn_pc := RnNot | RnLaunched | RnStored | RnRunning | RnSending (e : errid) | RnDone.
 
 Inductive main_pc :=
 | MLaunch (i : nat)          (* about to launch runnable i (i = n: go to reap) *)
@@ -435,6 +440,7 @@ Inductive label :=
 | LMainShutdown                          (* tau: Main calls Shutdown() *)
 | LMainReturn (r : result)                (* visible: Run() returns r *)
 (* runnable goroutines *)
+| LRunStore (i : nat)                    (* tau: startRunnable stores the initial state and broadcasts the map *)
 | LRunCall (i : nat)
 | LRunRet (i : nat) (e : option (errid * bool))
 | LErrSend (i : nat)                     (* tau: errorChan <- err *)
@@ -636,7 +642,11 @@ Definition step0 (c : config) (s : state) (l : label) : option state :=
   | LGateCtx i =>
     match main s with
     | MGate j => if Nat.eqb i j && ctx_done s && negb (polling (aux s))
-                 then Some (set_main s (after_launch c i)) else None
+                 then match errq s with
+                      | e :: q => Some (set_main (set_errq s q) (MExit (ResErr e)))  (* pendingError() *)
+                      | [] => Some (set_main s (after_launch c i))
+                      end
+                 else None
     | _ => None
     end
   | LReapErr =>
@@ -677,8 +687,20 @@ Definition step0 (c : config) (s : state) (l : label) : option state :=
     end
   | LRunCall i =>
     match rn_at s i with
-    | RnLaunched => if Nat.ltb i n
-                    then Some (with_hist (store_state c (set_rn s i RnRunning) i) (ERunCall i))
+    | RnLaunched => if Nat.ltb i n && negb (stateable (spec c i))
+                    then Some (with_hist (set_rn s i RnRunning) (ERunCall i))
+                    else None
+    | RnStored => if Nat.ltb i n
+                  then Some (with_hist (set_rn s i RnRunning) (ERunCall i))
+                  else None
+    | _ => None
+    end
+  | LRunStore i =>
+    (* startRunnable, before it calls Run: stateMap.Store(r, initialState); broadcastState() *)
+    match rn_at s i with
+    | RnLaunched => if Nat.ltb i n && stateable (spec c i)
+                    then Some (set_smap (set_rn s i RnStored) (upd (smap s) i (Some (cur_at s i)))
+                                        (broadcast (upd (smap s) i (Some (cur_at s i))) (subs s)))
                     else None
     | _ => None
     end
@@ -967,7 +989,7 @@ Definition taus_nt (c : config) (s : state) : list label :=
   let ix := idxs c in
   map LLaunch ix ++ map LGateDecide ix ++ map LGateErr ix ++ map LGateCtx ix
   ++ [LReapErr; LReapCtx; LReapSig; LMainShutdown]
-  ++ map LErrSend ix
+  ++ map LErrSend ix ++ map LRunStore ix
   ++ [LSdCancel; LSdWgDone]
   ++ map (fun kc => LRmAccept (SndCaller (fst (fst kc)))) (callers s)
   ++ [LRmAccept SndHup] ++ map (fun i => LRmAccept (SndListener i)) ix
@@ -1004,7 +1026,7 @@ Definition count_if {A} (f : A -> bool) (l : list A) : nat := length (filter f l
 Definition census (s : state) : nat :=
   let live := negb (ctx_done s) in
   (match main s with MReturned _ => 0 | _ => 1 end)
-  + count_if (fun p => match p with RnLaunched | RnRunning | RnSending _ => true | _ => false end) (rn s)
+  + count_if (fun p => match p with RnLaunched | RnStored | RnRunning | RnSending _ => true | _ => false end) (rn s)
   + (if rm_finished (rm s) then 0 else 1)
   + (if live then count_if (fun p => negb (ls_finished p)) (rls s) else 0)
   + (if sdm_done s then 0 else 1)
@@ -1128,6 +1150,7 @@ Definition key_main (m : main_pc) : list N :=
 Definition key_rn (p : rn_pc) : list N :=
   match p with
   | RnNot => [0%N] | RnLaunched => [1%N] | RnRunning => [2%N] | RnSending e => [3%N; nn e] | RnDone => [4%N]
+  | RnStored => [5%N]
   end.
 
 Definition key_sd (p : sd_pc) : list N :=
